@@ -24,13 +24,13 @@ func init() {
 
 	register(&core.Rule{ID: "C03.1", Prop: "C03", MinSites: 3,
 		Desc: "Trigger: Enqueue precedes the CAS on wakeupCall; task fields are set before Enqueue and not written after; the wake syscall happens on and only on the CAS-success edge; an EAGAIN wake is retried",
-		Run: runC03_1})
+		Run:  runC03_1})
 	register(&core.Rule{ID: "C03.2", Prop: "C03", MinSites: 2,
 		Desc: "Polling: wakeupCall is reset to 0 only after the urgent queue was seen empty, and after the reset every path back to the blocking wait re-checks both queues empty or attempts the CAS on wakeupCall",
-		Run: runC03_2})
+		Run:  runC03_2})
 	register(&core.Rule{ID: "C03.4", Prop: "C03", MinSites: 4,
 		Desc: "Polling: every dequeued task is executed exactly once before the next dequeue, recycled (PutTask) only after Exec and never used after PutTask",
-		Run: runC03_4})
+		Run:  runC03_4})
 	register(&core.Rule{ID: "C03.5", Prop: "C03", MinSites: 3,
 		Desc: "Poller.wakeupCall is accessed only through sync/atomic",
 		Run: func(c *core.Ctx) {
@@ -41,19 +41,19 @@ func init() {
 		}})
 	register(&core.Rule{ID: "C03.6", Prop: "C03", MinSites: 1,
 		Desc: "Trigger routes a task to the low-priority queue only under a condition that excludes HighPriority",
-		Run: runC03_6})
+		Run:  runC03_6})
 	register(&core.Rule{ID: "C03.7", Prop: "C03", MinSites: 4,
 		Desc: "every asynchronous task body that takes an AsyncCallback invokes a non-nil callback exactly once on every path (deferred for the write tasks)",
-		Run: runC03_7})
+		Run:  runC03_7})
 	register(&core.Rule{ID: "C03.8", Prop: "C03", MinSites: 2,
 		Desc: "wake() returns without a callback on the stale-connection edge and otherwise calls OnTraffic exactly once",
-		Run: runC03_8})
+		Run:  runC03_8})
 	register(&core.Rule{ID: "C03.9", Prop: "C03", MinSites: 2, Applies: func(c core.Config) bool { return c.IsLinux() },
 		Desc: "the wake-up eventfd is created EFD_NONBLOCK and registered edge-triggered",
-		Run: runC03_9})
+		Run:  runC03_9})
 	register(&core.Rule{ID: "C03.11", Prop: "C03", MinSites: 8,
 		Desc: "every Trigger call in package gnet targets the poller of the loop that owns the connection/engine object at hand, async writes and exit signals use HighPriority (constant), and the task function is bound to the same connection",
-		Run: runC03_11})
+		Run:  runC03_11})
 }
 
 type pollerAnchors struct {
